@@ -290,6 +290,9 @@ func buildAlphabet() *alphabet {
 	add(group("H", lv("he", group("")), intLeaf("k", 1)))
 	add(group("", &spec{label: "Attr{}", kind: kEmpty}))
 	add(group("X", group("", &spec{label: "Attr{}", kind: kEmpty})))
+	// groups whose ONLY member is a LogValuer that resolves to a group without content
+	add(group("P", lv("pe", group(""))))
+	add(group("Q", lv("qe", group("", &spec{label: "Attr{}", kind: kEmpty}, &spec{label: "Attr{}", kind: kEmpty}))))
 	return a
 }
 
